@@ -99,7 +99,20 @@ CFG = {
                   "ApplyMessage / ToMessage (mutual exclusion observed directly, also between ParameterData and "
                   "Artifact); producers may panic (RPanic exactly when the linearization state has a bad value); at every quiescent point each producer of the live instance must agree with a "
                   "fresh instance given the same parameter values (also for producers with failing nodes and for the "
-                  "repository's glTF scene producer)",
+                  "repository's glTF scene producer). Round 4: the HTTP layer is inside the model and the runs -- handler "
+                  "facts (T) extracted from generator/app_server.go + app_server_parameter.go (every function reaching an "
+                  "entry point performs ONE call site of ONE entry point, bypasses nothing, keeps no state between "
+                  "requests); proved: what HTTP clients observe (intervals that contain the Instance call's, the "
+                  "call's own response) is linearizable for the checked tree's lock + handler facts; a handler that "
+                  "answers with another request's response (cache / coalescing) is refuted; every third epoch of the "
+                  "real runs goes through generator.App.Run(edit)'s real HTTP server (POST/GET /parameter/value, GET "
+                  "/producer/value, /zip, /started, /schema), incl. an orchestrated serialisation-overlap scenario "
+                  "(a download held at a gate inside the artifact's Write, an update acknowledged meanwhile, new "
+                  "requests after the acknowledgement). Sequential sweep scripts (one client; proved: the linear "
+                  "replay decides linearizability there) walk through update-count coincidences on nodes with 2-3 "
+                  "direct parameter dependencies and on shared inner nodes (counts 1-3 x {1..5, 2^k-1, 2^k, 2^k+1 up "
+                  "to 257}, both orders, from version 0 and random bases); the element-wise dependency-version "
+                  "comparison of nodes.Struct is proved exact and the folded stamp s<<sh^v refuted for every sh",
     "level_note": "The theorems are about the lock-level model parametrised by the generated lock facts (a syntactic "
                   "discipline: Lock first, defer Unlock next, nothing shared touched before, no goroutines/closures, "
                   "callees do not touch the mutex) - they do not cover the Go memory model. Data races and crashes of the "
@@ -111,7 +124,16 @@ CFG = {
                  "facts (T) + vm_compute judgement of recorded concurrent histories (H) + race detector sampling",
     "design_ref": "DESIGN.md §4 C13",
     "n_quick": 500, "n_thorough": 20000, "search_n": 2400,
-    "rule": "n/16 cold-start windows first (each in a child process on fresh instances, 8 attempts: all clients "
+    "rule": "[round 4: + ~340 (quick) sequential sweep scripts, each on a fresh instance: the full grid (0..3) x "
+            "{1,2,3,4,5,7,8,9,15,16,17,31,32,33,63,64,65,127,128,129,255,256,257} of update counts on the 2- and "
+            "3-dependency nodes of the fixed shape multi-dep (a=1 complete, a=0 with powers of two >= 64 complete, rest "
+            "sampled 1/3 in quick), 24 from random base versions with interleaved bursts, side-read scripts on shared "
+            "inner nodes (every other producer read after every update, counts 1-2 x {1..64}), 16 random multi-round "
+            "scripts (1/4 through HTTP); every third epoch (at most 60) is served by the repository's edit server and "
+            "all its calls are HTTP requests, every fourth window of such an epoch is the serialisation-overlap "
+            "scenario, 1/5 of its other windows contain a GET /zip (one artifact call per producer inside one "
+            "interval); gated text producers (slow.txt) in every fixed shape and 2/3 of the random ones] "
+            "n/16 cold-start windows first (each in a child process on fresh instances, 8 attempts: all clients "
             "released together on node ids never looked up before, 3/4 with File/Image parameters backed by a command "
             "line flag whose lazy first read is contended between ParameterData and a dependent Artifact; a dying "
             "child = failed calls), then "
@@ -134,7 +156,16 @@ CFG = {
             "point, where every producer of the live instance is also compared with a FRESH instance built with "
             "the same parameter values; an epoch ends after a rejected window; distinct by recorded history; non-trivial = an "
             "update overlaps in time with a read/artifact call of another thread",
-    "trusted": ["tools/lockfacts (go/parser based, purely syntactic extraction of the lock discipline of every method of "
+    "trusted": ["tools/lockfacts handler facts (handlers.go; syntactic, name-based call resolution inside package generator: "
+                "functions of app_server.go / app_server_parameter.go and their package callees that reach "
+                "UpdateParameter / ParameterData / Artifact; 'shared' = receiver fields, package variables, captured "
+                "locals that are assigned / indexed / deleted from / address-taken / method-called, calls of package "
+                "functions and of graph.Instance methods excepted)",
+                "HTTP transport of the harness (net/http client against generator.App.Run(edit) on a loopback port; "
+                "mapping of status/body to responses: empty 200 = accepted update, {error} = rejected, 500 + 'panic "
+                "recover' = panicked artifact); stamps are taken before the request is sent and after the body was "
+                "read (justified by http_clients_linearizable: widening intervals preserves linearizability)",
+                "tools/lockfacts (go/parser based, purely syntactic extraction of the lock discipline of every method of "
                 "graph.Instance; receiver fields only - state behind nodes/parameters is reached only through calls made "
                 "inside the critical section). It normalises three equivalent idioms to the canonical facts, only when the "
                 "helper is found in the same package and its body is exactly the pattern: `defer r.h()()` with h = "
@@ -145,7 +176,11 @@ CFG = {
                 "decoding of artifact text / bytes / parameter JSON to numbers; the re-read of retained responses and the "
                 "per-node in-flight counters are harness code (prop_ok only compares what they report)",
                 "Go race detector (sampling; only for the three entry points the property names)"],
-    "modelled": ["the node graph and its caches: C11's model (Graph/Nodes.v, tied to the code by C11's own correspondence check)",
+    "modelled": ["HTTP handlers as observations of the Instance calls (Graph/LockExt.v http_obs): same operation, containing "
+                 "interval, own response when the handler facts hold",
+                 "sequential scripts with compact update bursts (seg / expand / legalb)",
+                 "dependency-version comparison of nodes.Struct: element-wise list vs folded stamp",
+                 "the node graph and its caches: C11's model (Graph/Nodes.v, tied to the code by C11's own correspondence check)",
                  "slice-backed responses: a heap of buffers and slice headers (Graph/LockAlias.v); adopt vs in-place upload",
                  "sync.Mutex as an atomic Acquire (enabled when free) / Release", "each parameter read/write and the "
                  "version load/store as one atomic step (the Go memory model is not modelled)",
